@@ -11,6 +11,7 @@ import (
 
 // Ctx carries the loaded program plus the derived call graph and entry points.
 type Ctx struct {
+	expReads map[string]map[string][]prefixUse
 	Repo, Verif, Tier string
 	tables            map[ssa.CallInstruction]*tableInfo
 	constTables       map[*ssa.Global]*[]tableEntry
@@ -728,6 +729,61 @@ func (cx *Ctx) readsOnlyPrefix(f *ssa.Function, prefix string) bool {
 		}
 	}
 	return n > 0
+}
+
+// readOnlyOver: f (with everything it reaches) only reads, and its store reads include
+// the prefix: a getter - however it is called and whatever else it looks up - of the
+// records kept under that prefix.
+func (cx *Ctx) readOnlyOver(f *ssa.Function, prefix string) bool {
+	hit := false
+	for _, g := range cx.Reachable([]*ssa.Function{f}, nil).Order {
+		if g.Blocks == nil {
+			continue
+		}
+		for _, p := range cx.primsOf(g) {
+			if isMutatingKind(p.Kind) {
+				return false
+			}
+			if p.Kind == "store.get" || p.Kind == "store.has" {
+				for _, px := range p.Prefix {
+					if px == prefix {
+						hit = true
+					}
+				}
+			}
+		}
+	}
+	return hit
+}
+
+// keyedRecordFact: among facts there is one (with the given truth value) of the shape
+// head + T + tail where T is the result of a read-only getter over prefix whose
+// arguments contain key - "the record stored under prefix for this key".
+func (cx *Ctx) keyedRecordFact(facts []FactT, holds bool, head, tail, prefix, key string) (FactT, bool) {
+	for _, ft := range facts {
+		if ft.Holds != holds || isOutcomeFact(ft.Text) {
+			continue
+		}
+		i := strings.Index(ft.Text, head)
+		if i < 0 {
+			continue
+		}
+		rest := ft.Text[i+len(head):]
+		j := strings.LastIndex(rest, tail)
+		if j < 0 {
+			continue
+		}
+		T := rest[:j]
+		p := strings.Index(T, "(")
+		if p <= 0 || !strings.Contains(T, key) {
+			continue
+		}
+		f := cx.funcByTermName(T[:p])
+		if f != nil && cx.readOnlyOver(f, prefix) {
+			return ft, true
+		}
+	}
+	return FactT{}, false
 }
 
 // absenceFact: among facts there is "no record under prefix for key argument arg":
